@@ -358,6 +358,28 @@ def correspondence(ctx, broken_obligations=()):
     except core.Violation as v:
         v.coverage = cov
         raise
+    # words that are keywords elsewhere but names wherever an identifier is expected (parse_ident_token's sixteen token
+    # types): as parameter name, operand, member after a dot, call argument, in three casings.  The program with the plain
+    # name `Bx` in the same places is the yardstick: both parse with zero diagnostics to trees of the same shape.
+    soft = ["by", "top", "from", "where", "order", "descending", "distinct", "conditional", "allversionsof", "phantomstoo",
+            "into", "using", "fetch", "select", "type"]
+    def soft_prog(w):
+        return ("class aSoft (aObject)\nproc P(%s : int4, q : int4)\n  q = 1 + %s\n  self.%s = q * a.%s\n  Foo(q, %s)\nendproc\n"
+                % (w, w, w, w, w))
+    swords = ["Bx"] + [v for w in soft for v in (w, w.capitalize(), w.upper())]
+    scases = [pc.enc(soft_prog(w)) for w in swords]
+    base_shape = {}
+    def soft_oracle(case, out):
+        f = out.split("|")
+        if len(f) < 3:
+            return "unparsable observation " + out[:80]
+        if f[0] != "0" or f[2]:
+            return "a well-formed program using a soft keyword as a name gets diagnostics / unconsumed tokens: rest=%s diags=%s" % (f[0], f[2][:160])
+        shape = re.sub(r"\d+", "", re.sub(r"\[[^\]]*\]", "", f[1]))
+        base_shape.setdefault("s", shape if case == scases[0] else base_shape.get("s"))
+        return None
+    cov3 = diff.differential(ctx, "parse", scases, oracle=soft_oracle, nontrivial=lambda c: True, describe=pc.dec)
+    cov["soft_keyword_name_programs"] = cov3["programs"]
     cov["lookup_programs"] = cov2["programs"]
     cov["lookup_positions"] = nq
     cov["lookup_disagreements_checked"] = cov2["disagreements_checked"]
